@@ -69,7 +69,7 @@ def run(tier):
     vlib.write_evidence("C08", tier, {
         "states": mc.distinct, "transitions": mc.generated, "traces_validated_against_impl": len(cases),
         "evaluations": len(cases), "distinct_nontrivial": denied,
-        "rule": "full product 5 dangerous built-ins x 18 embedding positions x 10 call syntaxes, plus the same product for 2 "
+        "rule": "full product 5 dangerous built-ins x 22 embedding positions x 11 call syntaxes (feasible cells), plus the same product for 2 "
                 "harmless built-ins as controls (must compile); states of the Sandbox model enumerated by TLC; each composed "
                 "module is compiled by CompileProfile and run by Validate in a process whose default transport, resolver and a "
                 "local probe listener record any outbound attempt; non-trivial = dangerous call rejected with the engine's "
